@@ -233,6 +233,66 @@ class Run(ProducerContract):
     def variants(self):
         return ['T-real', 'T-none']
 
+    # ---- loops and yield sites of run() by ROLE: the cycle loop (while), the loop over websocket.feed(data), a loop
+    # over _regular() nested in the feed loop ("after every event"), a loop over _regular() outside it ("once per
+    # cycle") - so that moving or re-ordering them neither mis-attributes a clause nor hides a missing evaluation
+    @staticmethod
+    def _structure(node):
+        import ast
+        par = {}
+        for n in ast.walk(node):
+            for ch in ast.iter_child_nodes(n):
+                par[id(ch)] = n
+
+        def fors_above(n):
+            out = []
+            while id(n) in par:
+                n = par[id(n)]
+                if isinstance(n, (ast.FunctionDef, ast.Lambda)) and n is not node:
+                    return None
+                if isinstance(n, ast.For):
+                    out.append(ast.unparse(n.iter))
+            return out
+
+        def role(n, own=None):
+            chain = ([own] if own is not None else []) + (fors_above(n) or [])
+            if not chain:
+                return None
+            if '_regular()' in chain[0]:
+                return 'regular-after-event' if any('.feed(' in x for x in chain[1:]) else 'regular-per-cycle'
+            if '.feed(' in chain[0]:
+                return 'feed'
+            return None
+        return role
+
+    def loop_keys(self, node, llist):
+        import ast
+        role = self._structure(node)
+        want = {'regular-per-cycle': 1, 'feed': 2, 'regular-after-event': 3}
+        ks, rest = [], iter([0] + list(range(4, 4 + len(llist))))
+        for l in llist:
+            r = role(l, ast.unparse(l.iter)) if isinstance(l, ast.For) else None
+            ks.append(want[r] if r in want else next(rest))
+        return ks
+
+    def site_keys_ast(self, node, ylist):
+        role = self._structure(node)
+        want = {'regular-per-cycle': 5, 'feed': 6, 'regular-after-event': 7}
+        n_other = len([y for y in ylist if role(y) not in want])
+        rest = iter(list(range(0, 5)) + list(range(8, 8 + max(0, n_other - 5))))
+        return [want[role(y)] if role(y) in want else next(rest) for y in ylist]
+
+    def _loop_var(self, k):
+        import ast
+        from pyvc import source
+        node, _ms = source.node_of(WebsocketSession.run)
+        role = self._structure(node)
+        want = {5: 'regular-per-cycle', 6: 'feed', 7: 'regular-after-event'}[k]
+        for l in ast.walk(node):
+            if isinstance(l, ast.For) and isinstance(l.target, ast.Name) and role(l, ast.unparse(l.iter)) == want:
+                return l.target.id
+        return None
+
     def setup(self, ip, v):
         W = world(ip, session='some', sock='none')
         st = ip.st
@@ -285,10 +345,7 @@ class Run(ProducerContract):
         # ---- every event obtained from a producer is handed on itself, exactly once (C01), and the
         # library's own reaction to it (auto-pong, timers) happened BEFORE the application sees it (C14)
         if k in (5, 6, 7):
-            from pyvc.source import Roles
-            roles = Roles(WebsocketSession.run)
-            cur = ip.env.vars.get({5: roles.for_target('_regular()', 0), 6: roles.for_target('.feed('),
-                                   7: roles.for_target('_regular()', 1)}[k])
+            cur = ip.env.vars.get(self._loop_var(k))
             st.oblige('yield%d(%s):hands-on-the-very-event-object-it-got' % (k, name), BoolVal(isinstance(cur, ORef) and cur == v), tags=('C01', 'C07'))
             seen = st.ghost.setdefault('handed_on', [])
             st.oblige('yield%d(%s):each-event-handed-on-once' % (k, name), BoolVal(isinstance(v, ORef) and v.oid not in seen), tags=('C01',))
@@ -394,8 +451,18 @@ class Run(ProducerContract):
         def mods_feed(ip):
             return [m for m in mods(ip) if not (m[0] == 'mem' or (m[0] == 'ghost' and m[1] == 'clock'))]
         locs = {'event': T.Const(None), 'data': T.Const(None), 'readable': T.Bool, 'max_bytes': T.Int(1)}
+        def checks_cycle(ip, when):
+            # C15 / C07: between two blocking waits the housekeeping (Poll, automatic ping, ping timeout, close timeout) is
+            # evaluated at least once WHATEVER the wait returned - otherwise a peer that keeps the socket readable without
+            # completing a message (a frame trickled byte by byte) postpones every timer for ever
+            if when != 'preserved':
+                return []
+            vis = ip.st.ghost.get('loops_visited', [])
+            last0 = len(vis) - 1 - vis[::-1].index(0) if 0 in vis else -1
+            return [('housekeeping-evaluated-in-every-cycle(between two waits, whatever the wait returned)',
+                     BoolVal(any(x in (1, 3) for x in vis[last0 + 1:])), ('C15', 'C07'))]
         if k == 0:
-            return LoopSpec(inv=inv, modifies=mods, locals=locs)
+            return LoopSpec(inv=inv, modifies=mods, locals=locs, checks=checks_cycle)
         if k in (1, 3):
             return LoopSpec(inv=inv, modifies=mods_regular, locals={'event': T.Const(None)})
         def checks_feed(ip, when):
